@@ -324,7 +324,20 @@ func c11r2(rc *core.RC) {
 				}
 				if len(restores) == 0 {
 					if ow0, ok := overwrite[0].(*ast.AssignStmt); ok {
-						if sel, ok := core.Unparen(ow0.Lhs[0]).(*ast.SelectorExpr); ok && pooledOwner(info, sel) == "" {
+						// only when the saved copy serves no other purpose (it is never read except by a blank assignment)
+						used := false
+						ast.Inspect(fd.Body, func(k ast.Node) bool {
+							if as2, ok := k.(*ast.AssignStmt); ok && len(as2.Lhs) == 1 {
+								if id, ok := as2.Lhs[0].(*ast.Ident); ok && id.Name == "_" {
+									return false
+								}
+							}
+							if id, ok := k.(*ast.Ident); ok && info.Uses[id] == sv.old {
+								used = true
+							}
+							return true
+						})
+						if sel, ok := core.Unparen(ow0.Lhs[0]).(*ast.SelectorExpr); ok && pooledOwner(info, sel) == "" && !used {
 							n++
 							rc.Bad(fmt.Sprintf("%s/save-restore %s", p.FuncName(fd), sv.path), ow0.Pos(), "%s is saved in %s and then overwritten, but never assigned back: the shared object stays modified after the call", sv.path, sv.old.Name())
 						}
